@@ -90,6 +90,8 @@ pub struct Mix {
     pub maxbatch: u32,
     pub sanamb: u32,
     pub fewmovers: u32,
+    pub rookcap: u32,
+    pub epdisc: u32,
     /// probability (per 100) that a root is followed by a walk, and its maximal length
     pub walk_pct: u32,
     pub walk_len: u32,
@@ -102,15 +104,15 @@ pub struct Mix {
 impl Mix {
     pub const GENERAL: Mix = Mix {
         start960: 6, dfrc: 6, corpus: 10, scatter: 14, sound: 12, pins: 12, ep: 12, castle: 14, promo: 6, mating: 5,
-        maxbatch: 1, sanamb: 2, fewmovers: 3, walk_pct: 35, walk_len: 60, null_pct: 8, clock_edge_pct: 15,
+        maxbatch: 1, sanamb: 2, fewmovers: 3, rookcap: 4, epdisc: 4, walk_pct: 35, walk_len: 60, null_pct: 8, clock_edge_pct: 15,
     };
     pub const HISTORIES: Mix = Mix {
         start960: 10, dfrc: 10, corpus: 10, scatter: 6, sound: 10, pins: 14, ep: 12, castle: 14, promo: 6, mating: 6,
-        maxbatch: 1, sanamb: 1, fewmovers: 3, walk_pct: 90, walk_len: 120, null_pct: 15, clock_edge_pct: 20,
+        maxbatch: 1, sanamb: 1, fewmovers: 3, rookcap: 4, epdisc: 4, walk_pct: 90, walk_len: 120, null_pct: 15, clock_edge_pct: 20,
     };
     pub const ROOTS_ONLY: Mix = Mix {
         start960: 4, dfrc: 4, corpus: 12, scatter: 16, sound: 14, pins: 12, ep: 12, castle: 14, promo: 6, mating: 4,
-        maxbatch: 1, sanamb: 1, fewmovers: 3, walk_pct: 10, walk_len: 20, null_pct: 5, clock_edge_pct: 10,
+        maxbatch: 1, sanamb: 1, fewmovers: 3, rookcap: 4, epdisc: 4, walk_pct: 10, walk_len: 20, null_pct: 5, clock_edge_pct: 10,
     };
 }
 
@@ -166,14 +168,14 @@ fn pick_weighted(cx: &mut Cx, ws: &[u32]) -> usize {
 impl<'c> Driver<'c> {
     /// Produce one root: (board, route name, source name). `None` if the library rejected the
     /// candidate (which is normal for scatter / lattice candidates).
-    pub fn root(&self, cx: &mut Cx) -> Option<(Board, &'static str, &'static str)> {
+    pub fn root(&self, cx: &mut Cx) -> Option<(Board, &'static str, &'static str, Option<RMove>)> {
         let m = &self.mix;
-        let ws = [m.start960, m.dfrc, m.corpus, m.scatter, m.sound, m.pins, m.ep, m.castle, m.promo, m.mating, m.maxbatch, m.sanamb, m.fewmovers];
+        let ws = [m.start960, m.dfrc, m.corpus, m.scatter, m.sound, m.pins, m.ep, m.castle, m.promo, m.mating, m.maxbatch, m.sanamb, m.fewmovers, m.rookcap, m.epdisc];
         let k = pick_weighted(cx, &ws);
         match k {
             0 => {
                 let n = cx.rng.below(960) as u32;
-                guard(|| Board::chess960_startpos(n)).ok().map(|b| (b, "start960", "start960"))
+                guard(|| Board::chess960_startpos(n)).ok().map(|b| (b, "start960", "start960", None))
             }
             1 => {
                 let mut w = cx.rng.below(960) as u32;
@@ -184,15 +186,27 @@ impl<'c> Driver<'c> {
                 if cx.rng.chance(1, 20) {
                     bn = *cx.rng.pick(&[0, 959, 518]);
                 }
-                guard(|| Board::double_chess960_startpos(w, bn)).ok().map(|b| (b, "dfrc", "dfrc"))
+                guard(|| Board::double_chess960_startpos(w, bn)).ok().map(|b| (b, "dfrc", "dfrc", None))
             }
             2 => {
                 if self.corpus.valid.is_empty() || cx.rng.chance(1, 12) {
                     let t = *cx.rng.pick(PERFT_ROOTS);
-                    guard(|| t.parse::<Board>()).ok().and_then(|r| r.ok()).map(|b| (b, "fromstr", "perft-root"))
+                    guard(|| t.parse::<Board>()).ok().and_then(|r| r.ok()).map(|b| (b, "fromstr", "perft-root", None))
                 } else {
                     let t = cx.rng.pick(&self.corpus.valid).clone();
-                    guard(|| Board::from_fen(&t, true)).ok().and_then(|r| r.ok()).map(|b| (b, "fen", "corpus"))
+                    guard(|| Board::from_fen(&t, true)).ok().and_then(|r| r.ok()).map(|b| (b, "fen", "corpus", None))
+                }
+            }
+            14 => {
+                // position before a double push that discovers a check; the push is forced next
+                let (p, from, to) = gen::ep_discovery_case(&mut cx.rng)?;
+                let mv = RMove { from: from as u8, to: to as u8, promo: None };
+                if !p.legal_moves().contains(&mv) {
+                    return None;
+                }
+                match build(&p) {
+                    Ok(Ok(b)) => Some((b, "builder", "ep-discovery", Some(mv))),
+                    _ => None,
                 }
             }
             _ => {
@@ -206,17 +220,18 @@ impl<'c> Driver<'c> {
                     9 => (gen::mating_case(&mut cx.rng), "mating-net"),
                     10 => (gen::max_batch_case(&mut cx.rng), "max-batch"),
                     11 => (gen::san_ambiguity_case(&mut cx.rng), "san-ambiguity"),
-                    _ => (gen::few_movers_case(&mut cx.rng), "few-movers"),
+                    12 => (gen::few_movers_case(&mut cx.rng), "few-movers"),
+                    _ => (gen::rook_right_capture_case(&mut cx.rng), "rook-right-capture"),
                 };
                 // both entry routes are used; which one hands out the board alternates
                 if cx.rng.chance(1, 2) {
                     match build(&p) {
-                        Ok(Ok(b)) => Some((b, "builder", src)),
+                        Ok(Ok(b)) => Some((b, "builder", src, None)),
                         _ => None,
                     }
                 } else {
                     match parse_shredder(&p) {
-                        Ok(Ok(b)) => Some((b, "fen", src)),
+                        Ok(Ok(b)) => Some((b, "fen", src, None)),
                         _ => None,
                     }
                 }
@@ -230,7 +245,7 @@ impl<'c> Driver<'c> {
         let mut attempts = 0u64;
         while seen < budget && attempts < budget * 50 + 1000 {
             attempts += 1;
-            let (mut board, route, source) = match self.root(cx) {
+            let (mut board, route, source, forced) = match self.root(cx) {
                 Some(x) => x,
                 None => {
                     cx.count("roots_rejected_by_library");
@@ -238,7 +253,7 @@ impl<'c> Driver<'c> {
                 }
             };
             cx.count_dyn(format!("root_source:{}", source));
-            let do_walk = cx.rng.chance(self.mix.walk_pct as u64, 100);
+            let do_walk = forced.is_some() || cx.rng.chance(self.mix.walk_pct as u64, 100);
             let mut route = route;
             if do_walk && cx.rng.chance(self.mix.clock_edge_pct as u64, 100) {
                 // clocks forced to the edges through the public setters
@@ -268,6 +283,25 @@ impl<'c> Driver<'c> {
             }
             cx.count("walks");
             let len = 1 + cx.rng.below(self.mix.walk_len as u64);
+            let (mut board, mut m) = (board, m);
+            if let Some(mv) = forced {
+                let mut nb = board.clone();
+                if guard(|| nb.play_unchecked(mv.lib())).is_ok() {
+                    let nm = RPos::observe(&nb);
+                    hist.moves.push(mv.text());
+                    {
+                        let ev = Ev { kind: EvKind::Play, prev: Some((&board, &m)), mv: Some(mv), hist: &hist, source };
+                        mon.on_board(cx, &nb, &nm, &ev);
+                    }
+                    cx.count("forced-discovering-double-pushes");
+                    seen += 1;
+                    if nm.structurally_sound().is_err() {
+                        continue;
+                    }
+                    board = nb;
+                    m = nm;
+                }
+            }
             seen += walk(cx, mon, board, m, &mut hist, len, self.mix.null_pct, source, budget.saturating_sub(seen));
         }
         cx.count_n("boards_observed", seen);
@@ -391,5 +425,83 @@ pub fn root_from(route: &str, fen: &str) -> Option<Board> {
     match route {
         "fen" | "corpus" => Board::from_fen(fen, true).ok().or_else(|| p.and_then(|p| to_builder(&p).build().ok())),
         _ => p.as_ref().and_then(|p| to_builder(p).build().ok()).or_else(|| Board::from_fen(fen, true).ok()),
+    }
+}
+
+/// Exhaustive shallow tree: every legal move sequence (and, optionally, null moves) up to `depth`
+/// plies from `board`, each node handed to the monitor with its full history.
+#[allow(clippy::too_many_arguments)]
+pub fn tree(cx: &mut Cx, mon: &mut dyn BoardMonitor, board: &Board, m: &RPos, hist: &mut Hist, depth: u32, with_null: bool, source: &'static str) {
+    if depth == 0 {
+        return;
+    }
+    let legal = m.legal_moves();
+    for mv in legal {
+        let mut nb = board.clone();
+        if guard(|| nb.play_unchecked(mv.lib())).is_err() {
+            cx.count("tree:play-panicked");
+            continue;
+        }
+        let nm = RPos::observe(&nb);
+        hist.moves.push(mv.text());
+        {
+            let ev = Ev { kind: EvKind::Play, prev: Some((board, m)), mv: Some(mv), hist, source };
+            mon.on_board(cx, &nb, &nm, &ev);
+        }
+        cx.count("tree:nodes");
+        if nm.structurally_sound().is_ok() {
+            tree(cx, mon, &nb, &nm, hist, depth - 1, with_null, source);
+        }
+        hist.moves.pop();
+    }
+    if with_null {
+        if let Ok(Some(nb)) = guard(|| board.null_move()) {
+            let nm = RPos::observe(&nb);
+            hist.moves.push("null".to_string());
+            {
+                let ev = Ev { kind: EvKind::Null, prev: Some((board, m)), mv: None, hist, source };
+                mon.on_board(cx, &nb, &nm, &ev);
+            }
+            cx.count("tree:nodes");
+            cx.count("tree:null-nodes");
+            if nm.structurally_sound().is_ok() {
+                tree(cx, mon, &nb, &nm, hist, depth - 1, false, source);
+            }
+            hist.moves.pop();
+        }
+    }
+}
+
+/// Trees from the Chess960 starts owned by this shard (and from the perft roots on shard 0).
+pub fn start_trees(cx: &mut Cx, mon: &mut dyn BoardMonitor, depth_all: u32, depth_some: u32, some_per_shard: usize) {
+    let mine = cx.mine(960);
+    for (i, n) in mine.iter().enumerate() {
+        let b = match guard(|| Board::chess960_startpos(*n as u32)) {
+            Ok(b) => b,
+            Err(_) => continue,
+        };
+        let m = RPos::observe(&b);
+        let mut hist = Hist { route: "start960", root: write_fen(&m, true), moves: Vec::new() };
+        {
+            let ev = Ev { kind: EvKind::Root, prev: None, mv: None, hist: &hist, source: "start960-tree" };
+            mon.on_board(cx, &b, &m, &ev);
+        }
+        let d = if i < some_per_shard { depth_some } else { depth_all };
+        tree(cx, mon, &b, &m, &mut hist, d, d <= 2, "start960-tree");
+        cx.count("tree:roots");
+    }
+    if cx.shard < PERFT_ROOTS.len() {
+        let t = PERFT_ROOTS[cx.shard];
+        if let Ok(Ok(b)) = guard(|| t.parse::<Board>()) {
+            let m = RPos::observe(&b);
+            let mut hist = Hist { route: "fromstr", root: write_fen(&m, true), moves: Vec::new() };
+            let ev_src = "perft-root-tree";
+            {
+                let ev = Ev { kind: EvKind::Root, prev: None, mv: None, hist: &hist, source: ev_src };
+                mon.on_board(cx, &b, &m, &ev);
+            }
+            tree(cx, mon, &b, &m, &mut hist, depth_all.max(2), true, ev_src);
+            cx.count("tree:roots");
+        }
     }
 }
